@@ -10,6 +10,7 @@ package explore
 import (
 	"fmt"
 	"hash/fnv"
+	"os"
 	"time"
 )
 
@@ -193,7 +194,7 @@ func Explore(cfg Config, run func(x *Exec, owned bool)) Stats {
 			if len(x.Trace) > 0 {
 				last = fmt.Sprintf("; last point reached: %q", x.Trace[len(x.Trace)-1].Label)
 			}
-			panic(HarnessError{fmt.Sprintf("replay divergence: execution ended after %d points, prefix has %d%s%s", len(x.Trace), len(nd.prefix), missing, last)})
+			panic(HarnessError{fmt.Sprintf("replay divergence: execution ended after %d points, prefix has %d%s%s; prefix=%v", len(x.Trace), len(nd.prefix), missing, last, nd.prefix) + describeDivergence(nd.expect, x.Trace)})
 		}
 		// children, pushed so that the earliest position / lowest alternative is explored first
 		cost := nd.cost
@@ -255,4 +256,25 @@ func runCatchingDivergence(run func(x *Exec, owned bool), x *Exec, owned bool) (
 	}()
 	run(x, owned)
 	return nil
+}
+
+// describeDivergence lists the labels the parent execution recorded next to the ones this execution
+// produced, from the first difference on.
+func describeDivergence(expect []Point, got []Point) string {
+	i := 0
+	for i < len(expect) && i < len(got) && expect[i].Label == got[i].Label && expect[i].N == got[i].N {
+		i++
+	}
+	if os.Getenv("VERIF_DIVERGENCE_FULL") != "" {
+		i = 0
+	}
+	out := fmt.Sprintf("; first difference at point %d; parent:", i)
+	for j := i; j < len(expect) && (j < i+8 || os.Getenv("VERIF_DIVERGENCE_FULL") != ""); j++ {
+		out += fmt.Sprintf(" %q/%d", expect[j].Label, expect[j].N)
+	}
+	out += "; this execution:"
+	for j := i; j < len(got) && (j < i+8 || os.Getenv("VERIF_DIVERGENCE_FULL") != ""); j++ {
+		out += fmt.Sprintf(" %q/%d", got[j].Label, got[j].N)
+	}
+	return out
 }
